@@ -72,6 +72,61 @@ theorem items_second {F : Term → Bool} {g g' : Graph} {h2 : Term} (hf : foreig
     · exact hcl l n hl (value_some_mem hr)
     · rw [(hnil REST (Or.inr rfl)).1] at hr; cases hr
 
+theorem getContainer_congr {g g' : Graph} (V : Term → Prop)
+    (hv : ∀ l, V l → value g' l FIRST = value g l FIRST ∧ value g' l REST = value g l REST)
+    (hcl : ∀ l n, V l → value g l REST = some n → V n) :
+    ∀ (k : Nat) (oc : Option Term), (∀ c, oc = some c → V c) →
+      getContainer g' oc k = getContainer g oc k ∧ ∀ c, getContainer g oc k = some c → V c := by
+  intro k
+  induction k with
+  | zero =>
+    intro oc hoc
+    cases oc <;> exact ⟨rfl, by simpa [getContainer] using hoc⟩
+  | succ k ih =>
+    intro oc hoc
+    cases oc with
+    | none => exact ⟨rfl, by simp [getContainer]⟩
+    | some c =>
+      have hc := hoc c rfl
+      simp only [getContainer, (hv c hc).2]
+      exact ih (value g c REST) (fun o ho => hcl c o hc ho)
+
+/-- every read of the second collection that goes through `Graph.items`, `_get_container` and `Graph.value`
+    (len, iteration, membership, indexing) answers the same in `g'` as in `g` -/
+theorem reads_second {F : Term → Bool} {g g' : Graph} {h2 : Term} (hf : foreign F g' = foreign F g)
+    (hnil : ∀ p, p = FIRST ∨ p = REST → value g NIL p = none ∧ value g' NIL p = none)
+    (h2F : F h2 = true) (hcl : ∀ c o, F c = true → (c, REST, o) ∈ g → F o = true ∨ o = NIL) :
+    len g' h2 = len g h2 ∧ iter g' h2 = iter g h2 ∧ (∀ x, contains g' h2 x = contains g h2 x) ∧
+      ∀ i, getItem g' h2 i = getItem g h2 i := by
+  have hi := items_second hf hnil h2F hcl
+  have hv : ∀ l, (F l = true ∨ l = NIL) →
+      value g' l FIRST = value g l FIRST ∧ value g' l REST = value g l REST := by
+    intro l hl
+    rcases hl with hl | rfl
+    · exact ⟨by rw [← value_foreign FIRST hl, hf, value_foreign FIRST hl],
+        by rw [← value_foreign REST hl, hf, value_foreign REST hl]⟩
+    · exact ⟨by rw [(hnil FIRST (Or.inl rfl)).1, (hnil FIRST (Or.inl rfl)).2],
+        by rw [(hnil REST (Or.inr rfl)).1, (hnil REST (Or.inr rfl)).2]⟩
+  have hc : ∀ l n, (F l = true ∨ l = NIL) → value g l REST = some n → (F n = true ∨ n = NIL) := by
+    intro l n hl hr
+    rcases hl with hl | rfl
+    · exact hcl l n hl (value_some_mem hr)
+    · rw [(hnil REST (Or.inr rfl)).1] at hr; cases hr
+  have hlen : len g' h2 = len g h2 := by simp only [len, hi]
+  refine ⟨hlen, by simp only [iter, hi], fun x => by simp only [contains, hi], fun i => ?_⟩
+  have hn : normIdx g' h2 i = normIdx g h2 i := by simp only [normIdx, hlen]
+  unfold getItem
+  rw [hn]
+  cases normIdx g h2 i with
+  | error e => rfl
+  | ok k =>
+    have hgc := getContainer_congr (fun l => F l = true ∨ l = NIL) hv hc k (some h2)
+      (fun c e => by cases e; exact Or.inl h2F)
+    simp only [getAt, hgc.1]
+    cases hcc : getContainer g (some h2) k with
+    | none => rfl
+    | some c => simp only [(hv c (hgc.2 c hcc)).1]
+
 theorem value_nil_of_own_inv {F : Term → Bool} {g : Graph} {fr : Nat} {h : Term} {ps : List Cell}
     (hn : F NIL = false) (inv : Inv ⟨own F g, fr⟩ h ps) {p : Term} (hp : p = FIRST ∨ p = REST) :
     value g NIL p = none := by
